@@ -65,6 +65,27 @@ def subsetInt (t : Tab α β γ) (i : Int) : PyM (Tab α β γ) := do
   let s ← Gen.subsetIntIndex i t.pos.length
   return t.subsetSlice s.1 s.2
 
+/-- the indices `range(*slice(lo, hi, step).indices(n))` of CPython (`none` = omitted bound) -/
+def pySliceIndices (lo hi : Option Int) (step : Int) (n : Nat) : List Nat :=
+  let N : Int := n
+  let norm (v lower upper : Int) : Int := if v < 0 then max (v + N) lower else min v upper
+  if step > 0 then
+    let start := match lo with | none => 0 | some v => norm v 0 N
+    let stop := match hi with | none => N | some v => norm v 0 N
+    let cnt := ((stop - start + step - 1) / step).toNat
+    (List.range cnt).map fun (k : Nat) => (start + (k : Int) * step).toNat
+  else if step < 0 then
+    let start := match lo with | none => N - 1 | some v => norm v (-1) (N - 1)
+    let stop := match hi with | none => -1 | some v => norm v (-1) (N - 1)
+    let cnt := ((start - stop + (-step) - 1) / (-step)).toNat
+    (List.range cnt).map fun (k : Nat) => (start + (k : Int) * step).toNat
+  else []
+
+/-- `subset(slice(lo, hi, step))`: the same index list applied to the three containers -/
+def subsetSliceStep (t : Tab α β γ) (lo hi : Option Int) (step : Int) : Tab α β γ :=
+  let idx := pySliceIndices lo hi step t.pos.length
+  ⟨idxSel idx t.pos, idxSel idx t.rot, idxSel idx t.feat⟩
+
 /-! ### row operations through the data frame -/
 
 def rowOp (f : List (α × β × γ) → List (α × β × γ)) (t : Tab α β γ) : Tab α β γ := ofRows (f t.rows)
